@@ -19,6 +19,17 @@ func base(prop string) *Profile {
 // ProfileFor returns the profile of (property, tier, variant). Variants
 // rotate with the seed so that one batch mixes several workload shapes (swarm).
 func ProfileFor(prop, tier string, seed uint64) *Profile {
+	if prop == "C13R" {
+		// plans for the race-detector workers of C13: the C13 workload over
+		// several databases (CREATE DATABASE and USE while another database
+		// has dirty pages and a live flusher), restarts included
+		pf := ProfileFor("C13", tier, seed)
+		pf.DBs = [2]int{1, 3}
+		pf.WUseSwitch, pf.WCreateDB, pf.WBadDB = 10, 5, 2
+		pf.WRestart = 3
+		pf.TickModes = []string{"random", "each", "sparse", "late"}
+		return pf
+	}
 	pf := base(prop)
 	pf.Tier = tier
 	thorough := tier == "thorough"
